@@ -781,7 +781,21 @@ fn gen_sel(rng: &mut Rng, cx: &mut SelCtx, parent: &str, depth: usize, is_sub_ro
             }
             seen.push(f.name.clone());
             let d = directive(rng, cx);
+            // now and then the same fragment is spread a second time in this selection set,
+            // under a condition of its own (legal: the selections merge)
+            let twice = !cx.plain && rng.chance(1, 6);
+            let d2 = if twice {
+                let kw = if rng.chance(1, 2) { "skip" } else { "include" };
+                let bool_vars: Vec<&(String, String, Option<String>)> =
+                    cx.vars.iter().filter(|v| v.1 == "Boolean!").filter(|v| !d.as_ref().is_some_and(|x| x.contains(&format!("${}", v.0)))).collect();
+                Some(if bool_vars.is_empty() { format!("@{kw}(if: {})", if rng.chance(1, 2) { "true" } else { "false" }) } else { format!("@{kw}(if: ${})", rng.pick(&bool_vars).0) })
+            } else {
+                None
+            };
             items.push(SelItem::Spread { name: f.name.clone(), directive: d });
+            if twice {
+                items.push(SelItem::Spread { name: f.name.clone(), directive: d2 });
+            }
         }
     }
     rng.shuffle(&mut items);
